@@ -26,6 +26,7 @@ CONSTANTS FAMS = {%(fams)s}
  REOPEN = "%(reopen)s"
  RMOD = %(rmod)d
  CORPUSSEL = %(corpussel)d
+ HOWS = {%(hows)s}
 INVARIANT EmitState
 INVARIANT Sane
 CHECK_DEADLOCK FALSE
@@ -41,6 +42,8 @@ def configs(thorough: bool) -> list:
                            rmod=2, corpussel=0)),
             ("seqs", dict(fams=q(ALLFAMS), nsers="0,1,3", catsel="3,7", xysel="1,4,5", L=3, fmt="all", reopen="end", rmod=2, corpussel=0)),
             ("corpus", dict(fams='"corpus"', nsers="0,1,2,5", catsel="2,4,7", xysel="1,3,4,5", L=2, fmt="none", reopen="end", rmod=3, corpussel=0)),
+            ("staged", dict(fams=q(ALLFAMS), nsers="1,2,3", catsel="2,3,4,5,7,9", xysel="3,4,5,6", L=2, fmt="none", reopen="end", rmod=2, corpussel=0,
+                            hows='"staged", "fresh"')),
         ]
     return [
         ("pairs", dict(fams=q(ALLFAMS), nsers="0,1,3", catsel="1,2,3,4,5,6,7,8,9", xysel="1,2,3,4,5,6", L=1, fmt="all", reopen="end", rmod=5,
@@ -48,6 +51,9 @@ def configs(thorough: bool) -> list:
         ("seqs", dict(fams=q(["bar", "doughnut", "radar", "xy", "bubble"]), nsers="0,2,3", catsel="4,7", xysel="1,4,5", L=2, fmt="ends",
                       reopen="end", rmod=3, corpussel=0)),
         ("corpus", dict(fams='"corpus"', nsers="0,1,5", catsel="2,5,7", xysel="1,3,5", L=1, fmt="none", reopen="end", rmod=2, corpussel=3)),
+        # one chart-data object rendered when half built, then completed (ReplaceData with the completed object)
+        ("staged", dict(fams=q(["bar", "line", "pie", "xy", "bubble"]), nsers="1,3", catsel="3,4,5,9", xysel="4,5", L=1, fmt="none", reopen="none",
+                        rmod=1, corpussel=0, hows='"staged"')),
     ]
 
 
@@ -74,7 +80,7 @@ def corpus_file(work: str) -> tuple[str, list]:
 def explore(work, name, params, corpus_path):
     cfg = os.path.join(work, "MC_ChartData_%s.cfg" % name)
     with open(cfg, "w") as f:
-        f.write(CFG % params)
+        f.write(CFG % dict({"hows": '"fresh"'}, **params))
     shapes_file = os.path.join(work, "shapes_%s.json" % name)
     r = E.run_tlc("MC_ChartData", cfg, work=work, env={"SHAPES_FILE": shapes_file, "CORPUS_FILE": corpus_path}, workers=16, timeout=3000,
                   heap="16g")
